@@ -921,9 +921,13 @@ class SymExec:
             return
 
     def eq_enum(self, d):
-        """Eq/Ne(X, enum const) -> (X, discriminant value, is_eq)"""
+        """Eq/Ne(X, enum const) or Eq/Ne(discr(X), k) -> (X, discriminant value, is_eq)"""
         if d[0] == "bin" and d[1] in ("Eq", "Ne"):
             a, b = d[2], d[3]
+            if a[0] == "discr" and b[0] == "int":
+                return a[1], b[1], d[1] == "Eq"
+            if b[0] == "discr" and a[0] == "int":
+                return b[1], a[1], d[1] == "Eq"
             if b[0] == "enum" and a[0] != "enum":
                 k = self.ops.discr_of(b[1], b[2])
                 if k is not None:
